@@ -118,12 +118,13 @@ def _target(rng, addr_pool, labels, valid_for_as):
 _LABELS = ["main", "_start", "helper", "frob", "_obstack_begin@@Base-0x94a0", "do_it", "x.y", ".L3"]
 
 
-def render_listing(rng, instrs, base=0x4000, section=".text", header=True, annotate=True, width8=False):
-    """objdump -d look-alike for a list of (mnemonic, operands)."""
+def render_listing(rng, instrs, base=0x4000, section=".text", header=True, annotate=True, width8=False, bare=False):
+    """objdump -d look-alike for a list of (mnemonic, operands).  bare: instruction lines only (a snippet someone pasted)."""
     lines = []
-    if header:
+    if header and not bare:
         lines += ["", "sample.bin:     file format elf64-x86-64", "", ""]
-    lines += [f"Disassembly of section {section}:", "", f"{base:016x} <{rng.choice(_LABELS)}>:"]
+    if not bare:
+        lines += [f"Disassembly of section {section}:", "", f"{base:016x} <{rng.choice(_LABELS)}>:"]
     addr = base
     for i, (mn, ops) in enumerate(instrs):
         nbytes = rng.choice((1, 2, 3, 3, 4, 5, 7, 9, 10)) if mn != "nopw" else 9
@@ -144,7 +145,7 @@ def render_listing(rng, instrs, base=0x4000, section=".text", header=True, annot
         if nbytes > 7:
             lines.append(f"{addr + 7:>8x}:\t{' '.join(bs[7:])} ")
         addr += nbytes
-        if rng.random() < 0.06:
+        if rng.random() < 0.06 and not bare:
             lines.append("")
             lines.append(f"{addr:016x} <{rng.choice(_LABELS)}>:")
         if rng.random() < 0.02:
@@ -164,7 +165,13 @@ def gen_listing(rng, n=None, base=None, branch_targets=None):
         mn = rng.choice(["call", "push", "nop"])
         for j in range(rng.randrange(2, 5)):
             instrs[at + j] = (mn, {"call": ["*0x1dc89(%rip)"], "push": ["%" + rng.choice(REG64)], "nop": []}[mn])
-    text, end = render_listing(rng, instrs, base=base)
+    r = rng.random()
+    sec = ".text" if r < 0.6 else rng.choice([".init", ".fini", ".plt", ".mycode"])
+    text, end = render_listing(rng, instrs, base=base, section=sec, bare=(rng.random() < 0.2))
+    if rng.random() < 0.3:
+        # a full `objdump -d` dump usually ends in another section
+        tail, _e = render_listing(rng, [gen_instruction(rng, addr_pool=pool) for _ in range(rng.randrange(1, 4))], base=end + 0x20, section=rng.choice([".fini", ".plt.got"]), header=False)
+        text += tail
     return text, instrs
 
 
@@ -522,3 +529,28 @@ def gen_dense_source(rng, n):
     one = ["push %rax", "push %rbx", "pop %rcx", "pop %rdx", "ret", "nop", "leave", "push %rsi", "pop %rdi"]
     out = ["\t.text", "L1:"] + ["\t" + rng.choice(one) for _ in range(n)] + ["\txor %eax,%eax", "\tmov $0x3c,%edi", "\tcltq", "\tret"]
     return "\n".join(out) + "\n", [{"name": ".text", "raw": False, "data": False}]
+
+
+def scatter_sections(elf: bytes, names: list, rng):
+    """Give every named section its own load address, NOT in file order (objcopy --change-section-address)."""
+    d = os.path.join(util.scratch_root(), f"as-{os.getpid()}")
+    os.makedirs(d, exist_ok=True)
+    a, b = os.path.join(d, "sc_in.o"), os.path.join(d, "sc_out.o")
+    with open(a, "wb") as fh:
+        fh.write(elf)
+    addrs = [0x1000 * (i + 1) for i in range(len(names))]
+    rng.shuffle(addrs)
+    argv = ["objcopy"]
+    for n, ad in zip(names, addrs):
+        argv.append(f"--change-section-address={n}={ad:#x}")
+    p = subprocess.run(argv + [a, b], stdout=subprocess.PIPE, stderr=subprocess.PIPE)
+    if p.returncode != 0 or not os.path.isfile(b):
+        return None
+    with open(b, "rb") as fh:
+        return fh.read()
+
+
+def gen_bloated_source(rng, mib=65):
+    """A little code and a huge zero-filled data section: an object of tens of MiB whose listing is a few lines."""
+    code, meta = gen_asm_source(rng, sections=[".text"], random_bytes_p=0.0)
+    return code + f"\t.data\nblob:\n\t.zero {mib * 1024 * 1024}\n", meta + [{"name": ".data", "raw": True, "data": True}]
